@@ -32,7 +32,7 @@ let out_res f = function
   | Panic site -> out_str "PANIC"; out_z site
   | OutOfFuel -> out_str "OUTOFFUEL"
 
-let run_case (line : string) =
+let run_case (line : Stdlib.String.t) =
   let t = toks_of_line line in
   let op = next_tok t in
   (match op with
@@ -79,11 +79,29 @@ let run_case (line : string) =
      let reg = next_list next_zlist t in
      let ins = next_list (fun t -> let k = next_int t in let bs = next_zlist t in if k = 0 then Chunk bs else Eof) t in
      let registered a = List.exists (fun r -> cmp_zl r a = 0) reg in
-     let o = loop (nat_of_int 20000) cm tbl registered (init_state vi) ins in
-     let (code, st) = (match o with Waiting s -> (0, s) | Ended s -> (1, s) | NoFuel s -> (2, s)) in
+     let o = loop (probe_exec registered) (nat_of_int 20000) cm tbl (init_state vi []) ins in
+     let (code, st) = (match o with Waiting s -> (0, s) | Ended s -> (1, s) | NoFuel s -> (2, s) | Returned s -> (3, s)) in
      out_int code;
-     out_list (fun (a, ks) -> out_zlist a; out_zlist ks) st.l_log;
+     out_list (fun (a, ks) -> out_zlist a; out_zlist ks) st.l_app;
      out_zlist st.l_keys.k_buf; out_zlist st.l_keys.k_macro; out_bool st.l_keys.k_must_wait
+   | "edsess" ->
+     let vi = next_bool t in let mem = next_bool t in let maxe = next_z t in
+     let h = next_list next_zlist t in
+     let cmds = next_list (fun t -> let n = next_zlist t in let k = next_zlist t in (n, k)) t in
+     let st = ref (Ok (ed_init vi h)) in
+     List.iter (fun (n, k) ->
+         (match !st with
+          | Ok e -> st := run_one n k mem maxe e
+          | _ -> ());
+         (match !st with
+          | Ok e ->
+            out_str "S"; out_zlist e.line; out_z e.cpos; out_z e.kmain; out_z e.klocal;
+            out_z (cur_undo e).u_pos; out_zlist (ring_top e);
+            out_bool e.sel.s_active; out_bool e.sel.s_visual; out_bool e.sel.s_vline; out_z e.sel.s_bpos; out_z e.sel.s_epos;
+            out_bool e.accepted; out_list out_zlist e.written
+          | Panic site -> out_str "PANIC"; out_z site
+          | OutOfFuel -> out_str "OUTOFFUEL")) cmds
+   | "edcmds" -> out_list out_zlist modelled_commands
    | "quote" -> let c = next_z t in out_zlist (quote c)
    | _ -> out_str ("UNKNOWN-OP " ^ op));
   flush_line ()
